@@ -80,6 +80,11 @@ def configs(tier):
     for c in [c for c in out if len(c['times']) <= 2 and c['sd'] and c['stop'] is not None and c['fail'] is None]:
         for late in (0, 1, 2):
             out.append(dict(c, late=late))
+    # a second start-mode block that is still busy (for 12 s more) when the circuit stops: the
+    # block under test has a stop_timeout that just covers its own work
+    for c in [c for c in out if c['mode'] == 'start' and len(c['times']) <= 2 and c['stop'] is not None
+              and c.get('late') is None]:
+        out.append(dict(c, twin=1))
     # event data shapes: no data at all, falsy items only, arguments picked by f_args / f_kwargs
     for mode in ('cancel', 'wait', 'start', 'c', 'w', 's'):
         for shape in SHAPES:
@@ -163,8 +168,12 @@ def _shape_exec(cfg, chooser):
             return 'ok'
         probe = Probe('probe', log=elog)
         kw = {'stop_data': dict(STOPD)} if sd else {}
+        if cfg.get('twin'):
+            async def coro2(value):
+                await asyncio.sleep(12 + (stop_at or 0))
+            out2 = edzed.OutputAsync('out2', coro=coro2, mode=mode, stop_timeout=1000, on_error=None)
         blk = edzed.OutputAsync(
-            'out', coro=coro, mode=mode, stop_timeout=1000, f_args=f_args, f_kwargs=f_kwargs,
+            'out', coro=coro, mode=mode, stop_timeout=5 if cfg.get('twin') else 1000, f_args=f_args, f_kwargs=f_kwargs,
             on_success=edzed.Event(probe, 'success'), on_error=edzed.Event(probe, 'error'),
             on_cancel=edzed.Event(probe, 'cancel'), **kw)
 
@@ -228,8 +237,12 @@ def one_exec(cfg, chooser):
             kw['guard_time'] = guard
         if sd:
             kw['stop_data'] = {'value': 'STOP', 'extra': 'sd'}
+        if cfg.get('twin'):
+            async def coro2(value):
+                await asyncio.sleep(12 + (stop_at or 0))
+            out2 = edzed.OutputAsync('out2', coro=coro2, mode=mode, stop_timeout=1000, on_error=None)
         blk = edzed.OutputAsync(
-            'out', coro=coro, mode=mode, stop_timeout=1000,
+            'out', coro=coro, mode=mode, stop_timeout=5 if cfg.get('twin') else 1000,
             on_success=edzed.Event(probe, 'success'), on_error=edzed.Event(probe, 'error'),
             on_cancel=edzed.Event(probe, 'cancel'), on_output=edzed.Event(probe, 'output'), **kw)
         holder['blk'] = blk
@@ -244,6 +257,8 @@ def one_exec(cfg, chooser):
             task = asyncio.create_task(sim.circuit.run_forever())
             await sim.circuit.wait_init()
             sent = []
+            if cfg.get('twin'):
+                edzed.ExtEvent(out2, 'put').send('x')
 
             def put(i):
                 try:
